@@ -524,6 +524,82 @@ def l3_cpu_case(out, d, full, sub):
     return [], {}
 
 
+# cross-run block: several runs (same output number and cpu count, different load balancing) visited in one process, addressed by
+# absolute path or by the default relative path after a chdir: nothing learnt from one run may be applied to another
+
+CROSS_GROUPS = [["3d-lm2-2cpu-512", "3d-lm2-2cpu-1100", "3d-lm2-2cpu-2049"], ["2d-2cpu-64", "2d-2cpu-131", "2d-2cpu-192"]]
+CROSS_MODES = ["absolute-paths", "relative-path-after-chdir"]
+
+
+def cross_preds(ndim, L):
+    n = 2**L
+    axes = "xyz"[:ndim]
+    return [{"kind": "box", "box": {ax: [0, 0] for ax in axes}}, {"kind": "box", "box": {ax: [n // 2, n // 2 + 1] for ax in axes}},
+            {"kind": "box", "box": {ax: [n - 2, n - 1] for ax in axes}}, {"kind": "box+value", "box": {axes[0]: [0, n // 2 - 1]}, "q": 0.5}]
+
+
+def cross_case(labels, mode, order, pred_i):
+    """-> problems. Loads the runs `labels[i] for i in order` one after the other in this process."""
+    import osyris
+
+    outs = {lab: build_l3(lab) for lab in labels}
+    problems = []
+    cwd0 = os.getcwd()
+    with _load.Scratch() as root:
+        dirs = {}
+        for lab, out in outs.items():
+            dirs[lab] = os.path.join(root, lab)
+            os.makedirs(dirs[lab])
+            out.write(dirs[lab])
+        try:
+            # expectations first, from processes' point of view unrelated full loads by absolute path
+            fulls = {}
+            for lab, out in outs.items():
+                ds, _ = _load.load(dirs[lab], out.nout)
+                fulls[lab] = C13.snapshot(ds)["mesh"]
+            for step, i in enumerate(order):
+                lab = labels[i]
+                out = outs[lab]
+                full = fulls[lab]
+                dens = sorted(full["density"][2])
+                pred = cross_preds(out.ndim, out.tree.levelmax)[pred_i]
+                sel, thr = l3_select(pred, out, dens)
+                exp = rows_of(full, l3_filter(full, pred, out, thr))
+                if mode == "relative-path-after-chdir":
+                    os.chdir(dirs[lab])
+                    ds, text = _load.load("", out.nout, select={"mesh": sel})
+                else:
+                    ds, text = _load.load(dirs[lab], out.nout, select={"mesh": sel})
+                got = rows_of(C13.snapshot(ds).get("mesh", {}))
+                if (len(exp) or len(got)) and (got.shape != exp.shape or not np.array_equal(got, exp)):
+                    problems.append((f"selected-load-differs-after-visiting-another-run:{mode}",
+                                     {"step": step, "run": lab, "expected_rows": int(len(exp)), "got_rows": int(len(got)), "files_opened": _load.processed_files(text)}))
+                    break
+        finally:
+            os.chdir(cwd0)
+    return problems
+
+
+def cross_items(thorough):
+    for gi, labels in enumerate(CROSS_GROUPS):
+        for mode in CROSS_MODES:
+            for order in ([0, 1], [1, 0], [0, 1, 2], [2, 0, 1], [1, 1, 0]):
+                for pred_i in range(4):
+                    if not thorough and pred_i == 3 and len(order) == 3:
+                        continue
+                    yield {"layer": "cross", "group": gi, "mode": mode, "order": order, "pred": pred_i}
+
+
+def cross_work(payload):
+    acc = Acc()
+    for idx, c in my_share(cross_items(payload["tier"] == "thorough"), payload):
+        problems = cross_case(CROSS_GROUPS[c["group"]], c["mode"], c["order"], c["pred"])
+        acc.case(nontrivial=True, outcome="ok" if not problems else "violation")
+        for sig, det in problems:
+            acc.violation("C04:" + sig, (3000, idx), c, det)
+    return acc
+
+
 def replay_layer3(case):
     out = build_l3(case["output"])
     with _load.Scratch() as d:
@@ -551,8 +627,10 @@ def run(ctx):
     a2 = Acc.merged(ctx.pool.shards(MOD, "layer2", ctx.base(), nshards=ctx.pool.n * 2))
     n3 = len(l3_outputs(ctx.thorough))
     a3 = Acc.merged(ctx.pool.shards(MOD, "layer3", ctx.base(), nshards=n3))
-    acc = Acc.merged([a1, a2, a3])
+    a4 = Acc.merged(ctx.pool.shards(MOD, "cross_work", ctx.base()))
+    acc = Acc.merged([a1, a2, a3, a4])
     cov = {
+        "cross_run_histories": a4.evaluations,
         "evaluations": acc.evaluations,
         "distinct_nontrivial": acc.nontrivial,
         "rule": "layer 1: every cell of the 2^b grids; layer 2: (box, bound_key sequence, levelmin, lmax) tuples, every dyadic box at "
@@ -578,6 +656,8 @@ def run(ctx):
 
 
 def replay_sigs(case):
+    if case.get("layer") == "cross":
+        return ["C04:" + s for s, _ in cross_case(CROSS_GROUPS[case["group"]], case["mode"], case["order"], case["pred"])]
     if case.get("layer") == 1:
         from osyris.io import hilbert as impl
 
